@@ -115,13 +115,18 @@ func (r *scopeRegistry) Report(reporter StatsReporter) {
 	r.reportInternalMetrics()
 
 	for _, subscopeBucket := range r.subscopes {
+		verifRLock(&subscopeBucket.mu, "registry.Report:bucket-rlock")
 		subscopeBucket.mu.RLock()
 
 		for name, s := range subscopeBucket.s {
+			verifYield("registry.Report:scope")
 			s.report(reporter)
+			verifYield("registry.Report:reported")
 
 			if s.closed.Load() {
+				verifYield("registry.Report:saw-closed")
 				r.removeWithRLock(subscopeBucket, name)
+				verifYield("registry.Report:removed")
 				s.clearMetrics()
 			}
 		}
@@ -135,13 +140,18 @@ func (r *scopeRegistry) CachedReport() {
 	r.reportInternalMetrics()
 
 	for _, subscopeBucket := range r.subscopes {
+		verifRLock(&subscopeBucket.mu, "registry.Report:bucket-rlock")
 		subscopeBucket.mu.RLock()
 
 		for name, s := range subscopeBucket.s {
+			verifYield("registry.Report:scope")
 			s.cachedReport()
+			verifYield("registry.Report:reported")
 
 			if s.closed.Load() {
+				verifYield("registry.Report:saw-closed")
 				r.removeWithRLock(subscopeBucket, name)
+				verifYield("registry.Report:removed")
 				s.clearMetrics()
 			}
 		}
@@ -152,6 +162,7 @@ func (r *scopeRegistry) CachedReport() {
 
 func (r *scopeRegistry) ForEachScope(f func(*scope)) {
 	for _, subscopeBucket := range r.subscopes {
+		verifRLock(&subscopeBucket.mu, "registry.ForEachScope:bucket-rlock")
 		subscopeBucket.mu.RLock()
 		for _, s := range subscopeBucket.s {
 			f(s)
@@ -174,6 +185,7 @@ func (r *scopeRegistry) Subscope(parent *scope, prefix string, tags map[string]s
 	_, _ = h.Write(buf)
 	subscopeBucket := r.subscopes[h.Sum64()%uint64(len(r.subscopes))]
 
+	verifRLock(&subscopeBucket.mu, "registry.Subscope:rlock")
 	subscopeBucket.mu.RLock()
 	// buf is stack allocated and casting it to a string for lookup from the cache
 	// as the memory layout of []byte is a superset of string the below casting is safe and does not do any alloc
@@ -194,12 +206,14 @@ func (r *scopeRegistry) Subscope(parent *scope, prefix string, tags map[string]s
 			return s
 		}
 
+		verifYield("registry.Subscope:found-closed")
 		switch {
 		case parent.reporter != nil:
 			s.report(parent.reporter)
 		case parent.cachedReporter != nil:
 			s.cachedReport()
 		}
+		verifYield("registry.Subscope:reported-closed")
 	}
 
 	tags = parent.copyAndSanitizeMap(tags)
@@ -210,6 +224,7 @@ func (r *scopeRegistry) Subscope(parent *scope, prefix string, tags map[string]s
 	if ok {
 		r.removeWithRLock(subscopeBucket, unsanitizedKey)
 		r.removeWithRLock(subscopeBucket, sanitizedKey)
+		verifYield("registry.Subscope:removed-closed")
 		s.clearMetrics()
 	}
 
@@ -223,8 +238,11 @@ func (r *scopeRegistry) Subscope(parent *scope, prefix string, tags map[string]s
 	// ref: https://go.dev/play/p/sxhExUKSxCw
 	unsanitizedKey = (unsanitizedKey + ".")[:len(unsanitizedKey)]
 
+	verifYield("registry.Subscope:unlocked")
+	verifLock(&subscopeBucket.mu, "registry.Subscope:lock")
 	subscopeBucket.mu.Lock()
 	defer subscopeBucket.mu.Unlock()
+	verifYield("registry.Subscope:locked")
 
 	if s, ok := r.lockedLookup(subscopeBucket, sanitizedKey); ok {
 		if _, ok = r.lockedLookup(subscopeBucket, unsanitizedKey); !ok {
@@ -258,6 +276,7 @@ func (r *scopeRegistry) Subscope(parent *scope, prefix string, tags map[string]s
 		done:            make(chan struct{}),
 		testScope:       parent.testScope,
 	}
+	verifYield("registry.Subscope:before-insert")
 	subscopeBucket.s[sanitizedKey] = subscope
 	if _, ok := r.lockedLookup(subscopeBucket, unsanitizedKey); !ok {
 		subscopeBucket.s[unsanitizedKey] = subscope
@@ -271,13 +290,16 @@ func (r *scopeRegistry) lockedLookup(subscopeBucket *scopeBucket, key string) (*
 }
 
 func (r *scopeRegistry) purgeIfRootClosed() {
+	verifYield("registry.purge:top")
 	if !r.root.closed.Load() {
 		return
 	}
 
 	for _, subscopeBucket := range r.subscopes {
+		verifLock(&subscopeBucket.mu, "registry.purge:lock")
 		subscopeBucket.mu.Lock()
 		for k, s := range subscopeBucket.s {
+			verifYield("registry.purge:scope")
 			_ = s.Close()
 			s.clearMetrics()
 			delete(subscopeBucket.s, k)
@@ -290,7 +312,10 @@ func (r *scopeRegistry) removeWithRLock(subscopeBucket *scopeBucket, key string)
 	// n.b. This function must lock the registry for writing and return it to an
 	//      RLocked state prior to exiting. Defer order is important (LIFO).
 	subscopeBucket.mu.RUnlock()
+	verifYield("registry.remove:runlocked")
 	defer subscopeBucket.mu.RLock()
+	defer verifRLock(&subscopeBucket.mu, "registry.remove:re-rlock")
+	verifLock(&subscopeBucket.mu, "registry.remove:lock")
 	subscopeBucket.mu.Lock()
 	defer subscopeBucket.mu.Unlock()
 	delete(subscopeBucket.s, key)
@@ -307,14 +332,17 @@ func (r *scopeRegistry) reportInternalMetrics() {
 	scopes := 1 // Account for root scope.
 	r.ForEachScope(
 		func(ss *scope) {
+			verifRLock(&ss.cm, "registry.internal:cm")
 			ss.cm.RLock()
 			counterSliceLen := int64(len(ss.countersSlice))
 			ss.cm.RUnlock()
 
+			verifRLock(&ss.gm, "registry.internal:gm")
 			ss.gm.RLock()
 			gaugeSliceLen := int64(len(ss.gaugesSlice))
 			ss.gm.RUnlock()
 
+			verifRLock(&ss.hm, "registry.internal:hm")
 			ss.hm.RLock()
 			histogramSliceLen := int64(len(ss.histogramsSlice))
 			ss.hm.RUnlock()
